@@ -75,7 +75,7 @@ struct Result {
   bool exhaustive = true;
   std::vector<std::string> notes;
   std::map<std::string, int> seen_;
-  static const size_t kMaxViol = 40;
+  static const size_t kMaxViol = 8000;
   static const size_t kMaxSamples = 12;
 
   void count(const std::string& k, long long n = 1) { counters[k] += n; }
@@ -90,10 +90,11 @@ struct Result {
     ++nviol;
     counters["viol:" + sig]++;
     // keep the recorded list diverse: at most 2 records per (sig, message head)
-    std::string key = sig + "|" + msg.substr(0, 28);
-    if (++seen_[key] > 2) return;
     if (violations.size() >= kMaxViol) return;
-    std::string j = "{\"sig\":" + jstr(sig) + ",\"msg\":" + jstr(msg) +
+    // every violation is recorded (the driver must be able to classify each one against the
+    // known-findings file); long messages are shortened once many have been recorded
+    const std::string shown = (violations.size() < 60 || msg.size() <= 700) ? msg : msg.substr(0, 700);
+    std::string j = "{\"sig\":" + jstr(sig) + ",\"msg\":" + jstr(shown) +
                     ",\"replay_args\":[";
     for (size_t i = 0; i < replay_args.size(); ++i)
       j += (i ? "," : "") + jstr(replay_args[i]);
@@ -224,9 +225,11 @@ struct Slot {
   char what[3700];              // human-readable descriptor of current case
 };
 inline Slot*& cur_slot() { static Slot* s = nullptr; return s; }
+inline bool& mark_cases() { static bool m = false; return m; }  // write a marker line to stderr per case (attribution of sanitizer output)
 inline void begin_case(long long id, const std::string& what) {
   Slot* s = cur_slot();
   if (!s) return;
+  if (mark_cases()) { char mk[64]; int n = snprintf(mk, sizeof mk, "\n@@case %lld\n", id); if (write(2, mk, n) < 0) {} }
   s->case_id = id;
   s->progress = s->progress + 1;
   size_t n = std::min(what.size(), sizeof(s->what) - 1);
@@ -276,6 +279,7 @@ inline std::string sanitizer_signature(const std::string& log) {
   } else if (log.find("Assertion") != std::string::npos) {
     kind = "assert";
   }
+  if (kind.compare(0, 5, "ubsan") == 0 && log.find("Assertion") != std::string::npos) kind += "+assert";
   // innermost cctz frame: first "in cctz::..." after the report start
   std::string fn = "?";
   size_t q = log.find(" in cctz::");
@@ -301,6 +305,7 @@ struct PoolOpts {
   double hang_s = 300;      // no progress for this long => hang
   int max_restarts = 6;     // per shard
   bool hang_is_violation = false;  // otherwise a hang marks the run non-exhaustive
+  bool crash_is_violation = true;  // false: abnormal exits are only counted (auxiliary builds)
   std::string prop = "";
 };
 
@@ -383,11 +388,18 @@ inline void run_shards(int nshards, const PoolOpts& opts, const std::string& wor
       std::string what = L.slot->what;
       what += " | raw:";
       for (int q = 0; q < 8; ++q) what += " " + std::to_string(L.slot->raw[q]);
-      std::string log = slurp(err_path(L.shard));
-      std::string sig = hung ? "hang@" + what.substr(0, what.find(' ')) : sanitizer_signature(log);
+      std::string log = slurp(err_path(L.shard), 1 << 26);
+      {  // only what was printed while the dying case was running
+        size_t mk = log.rfind("\n@@case ");
+        if (mk != std::string::npos) log = log.substr(mk);
+        if (log.size() > 6000) log.resize(6000);
+      }
+      std::string sig = hung ? "hang@" + what.substr(0, what.find_first_of(": ")) : sanitizer_signature(log);
       std::vector<std::string> ra;
       if (replay_of) ra = replay_of(cid, what);
-      if (hung && !opts.hang_is_violation) {
+      if (!opts.crash_is_violation) {
+        total->count(hung ? "aux_hangs" : "aux_crashes");
+      } else if (hung && !opts.hang_is_violation) {
         total->exhaustive = false;
         total->note("shard " + std::to_string(L.shard) + " made no progress for " + std::to_string(static_cast<int>(opts.hang_s)) + "s at case [" + what + "]; killed (not counted as violation)");
       } else {
